@@ -44,7 +44,7 @@ func zxSimple(s string) (int64, bool) {
 	return v, true
 }
 
-//zx:harness prop=C16 id=C16.D tier=quick fpconv=1 shard=len:5 L=4 thorough.L=5 thorough.shard=len:6 maxconc=200
+//zx:harness prop=C16 id=C16.D tier=quick fpconv=1 shard=len:5 L=4 maxconc=200 thorough.L=5 thorough.shard=len:6
 func zxC16ParseDuration() {
 	L := vrtParam("L", 4)
 	n := vrtShape("len", L+1)
